@@ -154,7 +154,7 @@ def run(R):
     cnt = 1200 if R.thorough else 250
     for t in range(cnt):
         m = R.rng.choice([1, 2, 3, 3, 4, 5, 6, 8])
-        n = R.rng.choice([1, 2, 3, 4, 5, 6, 8, 12, 40])
+        n = R.rng.choice([1, 2, 3, 4, 5, 6, 8, 12, 40, 65, 100, 129])
         P = V.structured_profile(R.rng, n, m) if R.rng.random() < 0.5 else V.rand_profile(R.rng, n, m)
         items.append({"P": P, "m": m, "zero": R.rng.random() < 0.5, "seeds": [R.rng.randrange(10 ** 6) for _ in range(3)]})
     run_items(R, items)
